@@ -378,6 +378,11 @@ class DirectoryRecord:
                                           rr_relocated, rr_relocated_parent,
                                           bytes_to_skip, self.dr_len, {}, date_seconds)
 
+        ce_record = self.rock_ridge.dr_entries.ce_record
+        if ce_record is not None and ce_record.len_cont_area > self.vd.logical_block_size():
+            # A continuation area has to fit into one block.
+            raise pycdlibexception.PyCdlibInvalidInput('Rock Ridge name or symlink target is too long to fit into a continuation area')
+
         # For files, we are done
         if not self.isdir:
             return
